@@ -362,7 +362,8 @@ Proof. vm_compute. repeat split; reflexivity. Qed.
                                          HTTP/1.0 included; sg_cfbody_ok), wire sg_fold_wire r cuts ++ sg_cfbody_wire ks last tr tcuts: the same
    Examples: fh_ex_whole / fh_ex_bytewise / fh_ex_single_cuts / fh_ex_tables (14 requests evaluated before the proofs), fh_ex_with_body, fh_ex_premises
    (non-vacuity), fh_ex_folded_cl (known finding K1 at history level: a folded Content-Length is inside the premises, never SMUGGLING in any chunking).
-   Nothing refuted: no chunking or folding changes an indicator. *)
+   Nothing refuted: no chunking or folding changes an indicator.
+   RESPONSE direction (H3): PFramingHistRes.v (imports this file) ends with its own block: fhr_response_cl_repeated, fhr_response_chunked_cl. *)
 Print Assumptions fh_request_flags.
 Print Assumptions fh_th0_clean.
 Print Assumptions fh_request_indicators.
